@@ -343,3 +343,56 @@ def real_families(ctx, name, n_main, n_def, props, seed_off=0, prom=False, want=
         summary_violations(ctx, sums, behs, desc, set(want))
         out.append((fam, behs, trace, sums))
     return out
+
+
+def window(ctx, props, desc="datagram during the teardown of the client's previous association"):
+    """harness/cmd/udpnat window: a client datagram arrives after its association's deadline has fired and RemoveNatEntry has
+    been entered, before natmap.del (the recording metrics hold the teardown there: an exact schedule)."""
+    d = ctx.sub("window")
+    tf, sf = os.path.join(d, "trace.ndjson"), os.path.join(d, "sum.json")
+    rc, out, err = run_capped([driver(ctx), "window", "-out", tf, "-summary", sf, "-seed", str(ctx.seed)], timeout=180)
+    if rc != 0:
+        raise vlib.Inconclusive("udpnat window failed rc=%s: %s" % (rc, err[-1500:]))
+    validate(ctx, tf, "UdpNatTraceReal.cfg", props, desc)
+    sums = json.load(open(sf))
+    summary_violations(ctx, sums, None, desc, {"returned", "leak"})
+    ctx.cov["evaluations"] += len(sums)
+    ctx.cov["distinct_nontrivial"] += len(sums)
+    return sums
+
+
+def two_listeners(ctx, props, n=120):
+    """harness/cmd/udpnat twol: one PacketHandler, two packet conns each with its own Handle goroutine (a service with two UDP
+    listeners); first datagrams of fresh clients on one, junk on the other, the target checks every byte."""
+    d = ctx.sub("twol")
+    tf, sf = os.path.join(d, "trace.ndjson"), os.path.join(d, "sum.json")
+    rc, out, err = run_capped([driver(ctx), "twol", "-out", tf, "-summary", sf, "-seed", str(ctx.seed), "-clients", str(n)], timeout=180)
+    if rc != 0:
+        raise vlib.Inconclusive("udpnat twol failed rc=%s: %s" % (rc, err[-1500:]))
+    s = json.load(open(sf))
+    cfg = open(os.path.join(vlib.SPEC, "UdpNatTraceRealDef.cfg")).read()
+    cfg = cfg.replace("Allowed = {10, 12}", "Allowed = {1, 2, 4, 5, 10, 11, 12}").replace("MaxAssoc = 12", "MaxAssoc = %d" % (s["associations"] + 3))
+    name = "UdpNatTraceTwol.cfg"
+    open(os.path.join(d, name), "w").write(cfg)
+    _validate_cfgtext(ctx, tf, cfg, props, "one handler, two listeners (concurrent Handle loops), %d fresh clients + junk" % n)
+    ctx.cov["evaluations"] += 1
+    ctx.cov["distinct_nontrivial"] += 1
+    ctx.cov["two_listeners"] = {k: s[k] for k in ("sent", "received", "intact", "not_a_sent_payload", "missing", "associations")}
+    return s
+
+
+def _validate_cfgtext(ctx, trace_path, cfgtext, props, desc, module="UdpNat"):
+    nlines = sum(1 for ln in open(trace_path) if ln.strip())
+    c = re.sub(r"Props = \{[^}]*\}", "Props = {%s}" % ", ".join('"%s"' % p for p in props), cfgtext)
+    ok, r = vlib.validate_traces(ctx, "UdpNatTrace", "UdpNatTraceRun.cfg", trace_path, timeout=900, extra_files={"UdpNatTraceRun.cfg": c})
+    res = parse_result(r)
+    if res is None or not ok or res["lines"] != nlines:
+        raise vlib.Inconclusive("trace validation did not consume the whole trace (%s): %s" % (desc, "\n".join(r.out.splitlines()[-12:])))
+    bad = {b["trace"] for b in res["bads"]}
+    ctx.cov["traces_validated_against_impl"] += res["ntraces"] - len(bad)
+    for b in res["bads"]:
+        rows = vlib.read_ndjson(trace_path)
+        odd = [x for x in rows if x.get("ev") == "TRecv" and x.get("p") == -1][:5]
+        ctx.violation({"module": module, "kind": b["prop"]}, "%s [%s]" % (WHAT.get(b["prop"], b["prop"]), desc),
+                      {"driver": desc, "property": b["prop"], "datagrams_at_target_that_nobody_sent": odd, "trace_tail": rows[-12:]})
+    return res
